@@ -200,20 +200,9 @@ impl<'a> StateMachine<'a> {
     fn ingest_line(&mut self, raw_line_bytes: &[u8]) {
         match String::from_utf8(raw_line_bytes.to_vec()) {
             Ok(utf8) => self.ingest_line_utf8(utf8),
-            Err(_) => {
-                let raw_line = String::from_utf8_lossy(raw_line_bytes);
-                // As for valid UTF-8 lines, a maximum length of 0 means "do not truncate".
-                let truncated_len = if self.config.max_line_length > 0 {
-                    utils::round_char_boundary::floor_char_boundary(
-                        &raw_line,
-                        self.config.max_line_length,
-                    )
-                } else {
-                    raw_line.len()
-                };
-                self.raw_line = raw_line[..truncated_len].to_string();
-                self.line.clone_from(&self.raw_line);
-            }
+            // Invalid bytes are replaced; after that the line is treated like any other
+            // (shortened with a visible truncation symbol, escape sequences removed).
+            Err(_) => self.ingest_line_utf8(String::from_utf8_lossy(raw_line_bytes).into_owned()),
         }
     }
 
